@@ -349,6 +349,17 @@ class FnBounds:
         verdicts = []
         for (l1, n1, extra) in cases:
             verdicts.append(self._check_case(I, l1, n1, what, extra))
+        if any(v[0] == "unknown" for v in verdicts) and not any(v[0] == "refuted" for v in verdicts):
+            # second attempt: also split the merge phis that only occur in the dominating comparisons (a bound such as
+            # i < n where n is a merge of two bounded values)
+            syms = set(total.syms()) | set(nlin.syms())
+            rel = [g for g in self.ineqs_at(I.b) if set(g.syms()) & syms]
+            if rel:
+                cases2 = [(fs[0], fs[1], ex) for (fs, ex) in self.split_forms([total, nlin] + rel)]
+                if len(cases2) > len(cases):
+                    v2 = [self._check_case(I, l1, n1, what, extra) for (l1, n1, extra) in cases2]
+                    if all(v[0] == "proven" for v in v2):
+                        verdicts = v2
         if all(v[0] == "proven" for v in verdicts):
             self.results.append((I, what, "proven", verdicts[0][1] + (" (%d cases)" % len(verdicts) if len(verdicts) > 1 else "")))
         elif any(v[0] == "refuted" for v in verdicts):
